@@ -925,8 +925,13 @@ def obj_attr(it, v, attr):
             if 'training!' not in v.a:
                 v.a['training!'] = z3.Bool('self.training')
             return v.a['training!']
-        if attr in ('eval', 'train', 'double', 'float', 'to', 'cpu', 'cuda', 'requires_grad_', 'zero_grad'):
-            return lambda *a, **k: v
+        if attr in ('eval', 'train', 'double', 'float', 'half', 'to', 'cpu', 'cuda', 'requires_grad_', 'zero_grad', 'type'):
+            def convert(*a, **k):
+                # nn.Module conversions rewrite the module's own buffers / flags IN PLACE: inside a call this is a write to module state
+                if v.__dict__.get('frozen'):
+                    ctx().effects.append(('attr-write', v, '%s() (rewrites the module buffers / flags in place)' % attr))
+                return v
+            return convert
     raise Raised('AttributeError', attr)
 
 
